@@ -27,12 +27,18 @@ MANIFEST = dict(
          "tick-size arithmetic and of the voice tables of virtual.c: for ALL modules satisfying the monitored well-formedness predicate, ALL "
          "call histories (any arguments) and ALL effect outcomes inside the monitored EffectRange, every successful frame reports 0<=pos<len, "
          "pattern=xxo[pos]<pat, 0<=row<rows(pattern), speed 1..255, bpm>0, frame time>0 computed from the reported tempo, a valid sequence, a "
-         "non-decreasing loop counter (C16_reachable, C16_reachable_info, C16_loop_monotone_run); for ALL inputs the buffer is a whole number "
+         "non-decreasing loop counter (C16_reachable, C16_reachable_info, C16_loop_monotone_run); for modules that also satisfy the monitored "
+         "order-list clause OrdWF (every kept sequence reaches a pattern) the order-skipping loop of next_order leaves through its own "
+         "condition within len+1 iterations from any p->ord >= -1 (C16_next_order_terminates), so every xmp_play_frame returns and returns "
+         "-XMP_END exactly in the C's early-return cases (C16_frame_returns) and the history theorems hold with no divergence escape "
+         "(C16_inv_frame_total, C16_reachable_total, C16_reachable_info_total); for ALL inputs the buffer is a whole number "
          "of 1/2/4-byte frames, between 8 and XMP_MAX_FRAMESIZE/4 frames, never above XMP_MAX_FRAMESIZE bytes, and within one frame of rate x "
-         "frame time when neither clamp applies (C16_ticksize, C16_framesize_bound, C16_ticksize_agrees); 0<=virt_used<=maxvoc<=virt_channels "
+         "frame time when neither clamp applies (C16_ticksize, C16_framesize_bound, C16_ticksize_agrees); a tempo factor accepted by "
+         "xmp_set_tempo_factor is never clamped at the tempo it was accepted for nor at any faster one (C16_tempo_factor_no_clamp); 0<=virt_used<=maxvoc<=virt_channels "
          "after every history of virtual.c operations (C16_virt, C16_virt_inv, pigeonhole for the NNA relocation proved). Tied to src/player.c, "
          "control.c, mixer.c, virtual.c on every run by a field-by-field differential correspondence (kernel step, control calls, start-up, "
-         "ST2.6 step, tick size via the real libxmp_mixer_prepare, every table-changing virtual.c call) and a direct oracle on xmp_frame_info "
+         "ST2.6 step, tick size via the real libxmp_mixer_prepare, acceptance of every xmp_set_tempo_factor call, every table-changing "
+         "virtual.c call and every field-only one: setnna, setsmp, queuepatch, pastnote OFF/FADE, compared on all seven voice fields) and a direct oracle on xmp_frame_info "
          "that yields replayable failing inputs.",
     note="Partial: (1) effect interpreters (read_event.c, effects.c, play_channel) are NOT modelled; they enter as arbitrary optional writes to "
          "pbreak/jump/jumpline/delay/rowdelay/loop_dest/speed/bpm/gvol/st26 constrained by EffectRange, which the harness monitors on every real "
@@ -40,8 +46,10 @@ MANIFEST = dict(
          "module played; the scan (scan.c) and the loaders are not modelled. (3) The C computes the tick size in double; the model is exact "
          "rational arithmetic and the correspondence brackets the rounding. (4) 'agrees with rate x frame time' is proved between the minimum "
          "(8 frames, anticlick) and maximum frame-size clamps, for rates in [XMP_MIN_SRATE, XMP_MAX_SRATE]. (5) termination of the "
-         "order-skipping loop of next_order is a hypothesis (result = ok) of the invariant theorems; the model never diverged on a played "
-         "module. Correspondence is sampled (differential), not exhaustive.",
+         "order-skipping loop of next_order is proved (no longer a hypothesis) from the order-list clause OrdWF = Seq.ordWfB, which is what "
+         "libxmp_scan_sequences guarantees for every sequence it keeps (any_valid); that implication is NOT proved (scan.c is not modelled "
+         "here): OrdWF is evaluated by the Lean driver on every module played and cross-checked against the same clause evaluated in C on the "
+         "live module. (6) libxmp_virt_off (end of the tables' life) is not modelled. Correspondence is sampled (differential), not exhaustive.",
     technique="Lean 4 invariant proofs by case analysis over the kernel + induction over call histories; differential correspondence "
               "from dumped pre-states; direct oracle on xmp_frame_info",
     design_ref="DESIGN.md section 4 C16/C17",
@@ -50,14 +58,17 @@ MANIFEST = dict(
 REQUIRED = [
     "Xmp.Seq.C16_inv_start", "Xmp.Seq.C16_inv_frame", "Xmp.Seq.C16_frame_info", "Xmp.Seq.C16_loop_monotone",
     "Xmp.Seq.C16_loop_monotone_run", "Xmp.Seq.C16_inv_control", "Xmp.Seq.C16_reachable", "Xmp.Seq.C16_reachable_info",
-    "Xmp.Tick.C16_ticksize", "Xmp.Tick.C16_framesize_bound", "Xmp.Tick.C16_ticksize_agrees",
+    "Xmp.Seq.C16_next_order_terminates", "Xmp.Seq.C16_frame_returns", "Xmp.Seq.C16_inv_frame_total",
+    "Xmp.Seq.C16_reachable_total", "Xmp.Seq.C16_reachable_info_total",
+    "Xmp.Tick.C16_ticksize", "Xmp.Tick.C16_framesize_bound", "Xmp.Tick.C16_ticksize_agrees", "Xmp.Tick.C16_tempo_factor_no_clamp",
     "Xmp.Virt.C16_virt", "Xmp.Virt.C16_virt_inv",
 ]
 
-PRODUCERS = ("wf", "start", "von", "frame", "ctl", "st26", "tick", "vop")
-NAMES = {"frame": "Seq.kernelStep vs xmp_play_frame (kernel-owned fields)", "ctl": "Seq.ctl vs control.c position calls",
+PRODUCERS = ("wf", "start", "von", "frame", "ctl", "st26", "tick", "tfac", "vop", "vopf")
+NAMES = {"wf": "Seq.ordWfB (Lean) vs the same clause evaluated in C on the live module", "frame": "Seq.kernelStep vs xmp_play_frame (kernel-owned fields)", "ctl": "Seq.ctl vs control.c position calls",
          "start": "Seq.start vs xmp_start_player", "von": "Virt.virtOn vs libxmp_virt_on", "st26": "Seq.st26Step vs ST2.6 speed step",
-         "tick": "Tick.getTicksize/prepare/bufferSize vs mixer.c", "vop": "Virt.step vs virtual.c"}
+         "tick": "Tick.getTicksize/prepare/bufferSize vs mixer.c", "tfac": "Tick.setTempoFactor vs xmp_set_tempo_factor (acceptance)", "vop": "Virt.step vs virtual.c",
+         "vopf": "Virt.step vs virtual.c (field-only operations: setnna, setsmp, queuepatch, pastnote OFF/FADE; all voice fields)"}
 
 
 def pick_corpus(ck, n):
@@ -110,7 +121,7 @@ def replay_of(exe, case, nframes, vd):
 def compare_case(ck, case, model_lines, stats, rp):
     """Compare expected (real) vs model lines of one case. Returns per-case counters."""
     prod = [d for d in case["D"] if d.split(" ", 1)[0] in PRODUCERS]
-    c = {"frames": 0, "repos": 0, "ordchg": 0, "ctl": 0, "wf": None, "fin": 0}
+    c = {"frames": 0, "repos": 0, "ordchg": 0, "ctl": 0, "wf": None, "ordwf": None, "fin": 0}
     oracle_failed = bool(case["O"])
     n = min(len(prod), len(case["E"]), len(model_lines))
     prev_ord = None
@@ -120,7 +131,9 @@ def compare_case(ck, case, model_lines, stats, rp):
         ok = et == mt
         if kind == "wf":
             c["wf"] = mt[1] == "1"
-            ok = True
+            c["ordwf"] = len(mt) > 2 and mt[2] == "1"
+            # Seq.ordWfB (Lean, on the dumped module) against the same clause evaluated in C on the live module
+            ok = len(et) > 2 and len(mt) > 2 and et[2] == mt[2]
         elif kind == "tick":
             stats["tick_cases"] += 1
             if et[1:4] == mt[1:4]:
@@ -133,6 +146,10 @@ def compare_case(ck, case, model_lines, stats, rp):
                 ok = lo != hi and min(lo, hi) <= int(et[1]) <= max(lo, hi)
                 if ok:
                     stats["tick_rounding_bracket"] += 1
+        elif kind == "tfac":
+            # exact agreement, or the value sits on the acceptance boundary within floating-point rounding
+            ok = et[:2] == mt[:2] or (len(mt) > 3 and mt[2] != mt[3])
+            stats["tfac_accepted" if et[1:2] == ["1"] else "tfac_refused"] += 1
         elif kind == "frame":
             if et[:2] == ["k", "ok"]:
                 c["frames"] += 1
@@ -147,9 +164,11 @@ def compare_case(ck, case, model_lines, stats, rp):
                 stats["model_diverge"] += 1
         elif kind == "ctl":
             c["ctl"] += 1
+        elif kind == "vopf":
+            stats["vopf_" + d.split(" ", 2)[1]] += 1
         if ok:
             stats["agree_" + kind] += 1
-            ck.cov["traces_validated_against_impl"] += 1 if kind in ("frame", "ctl", "vop") else 0
+            ck.cov["traces_validated_against_impl"] += 1 if kind in ("frame", "ctl", "vop", "vopf") else 0
         elif not oracle_failed:
             stats["disagree_" + kind] += 1
             ck.unproved("correspondence " + NAMES.get(kind, kind),
@@ -194,6 +213,7 @@ def run(ck):
     nstats = defaultdict(int)
     sigs = defaultdict(int)
     wf_fail_cases = []
+    ordwf_fail_cases = []
     for (rc, out, err), sh in zip(results, shards):
         cases, ns = split_cases(out)
         for k, v in ns.items():
@@ -226,9 +246,13 @@ def run(ck):
             if c["begin"] == "tick-shard":
                 compare_case(ck, c, ml, stats, rp)
                 continue
-            cc = compare_case(ck, c, ml, stats, rp) if model is not None else {"frames": 0, "repos": 0, "ordchg": 0, "ctl": 0, "wf": None}
+            cc = compare_case(ck, c, ml, stats, rp) if model is not None else {"frames": 0, "repos": 0, "ordchg": 0, "ctl": 0, "wf": None, "ordwf": None}
             if cc["wf"] is False:
                 wf_fail_cases.append(c["begin"][:160])
+            if cc["ordwf"] is False:
+                ordwf_fail_cases.append(c["begin"][:160])
+            elif cc["ordwf"]:
+                stats["modules_ordwf_holds"] += 1
             for a in c["A"]:
                 stats["assumption_" + a.split(" ", 1)[0]] += 1
                 if not c["O"]:
@@ -242,6 +266,11 @@ def run(ck):
         # a module outside WF is outside the theorems' scope: report, do not hide
         ck.note("modules_outside_WF", wf_fail_cases[:20])
         ck.unproved("monitored assumption WF", "module data read by the kernel violates Seq.wfB: " + "; ".join(wf_fail_cases[:5]))
+    if ordwf_fail_cases:
+        # outside the scope of the termination theorems (C16_next_order_terminates, C16_*_total): report, do not hide
+        ck.note("modules_outside_OrdWF", ordwf_fail_cases[:20])
+        ck.unproved("monitored assumption OrdWF", "a loaded module has a sequence that cannot reach a pattern (Seq.ordWfB): "
+                    + "; ".join(ordwf_fail_cases[:5]))
     for k, v in sorted(stats.items()):
         ck.note(k, v)
     for k, v in sorted(nstats.items()):
@@ -258,6 +287,9 @@ def run(ck):
         "st26_speed 0 or two non-zero bytes — monitored on every real frame (harness 'A effrange')",
         "WF: module data read by the kernel (orders, rows >= 1, sequence table, entry points, xxo_info speed/bpm) — evaluated by the Lean "
         "driver (Seq.wfB) on every module played",
+        "OrdWF: every kept sequence reaches an order holding a pattern (restart position of the sequence, entry point, or forward walk "
+        "from the entry point before the end of the list / an 0xff marker) — evaluated by the Lean driver (Seq.ordWfB) on every module "
+        "played and, independently, in C by the harness; hypothesis of the termination theorems only",
         "OpOk: preconditions of the virtual.c operations (resetvoice on a used voice, setpatch on a track channel, NNA only with "
         "QUIRK_VIRTUAL) — monitored at every spied call",
         "XMP_PLAYER_VOICES >= 0 (negative / huge values are finding F4 of another property)",
